@@ -4,6 +4,7 @@ import (
 	"context"
 	"encoding/json"
 	"fmt"
+	"reflect"
 	"strings"
 
 	"google.golang.org/protobuf/types/known/fieldmaskpb"
@@ -132,12 +133,17 @@ type pubOp struct {
 	Allow        bool   `json:"allow"`
 	AllowMissing bool   `json:"allowMissing"`
 }
+type pubStep struct {
+	A    pubOp `json:"a"`
+	Conc bool  `json:"conc"` // hold a at its clock read and run b in between
+	B    pubOp `json:"b"`
+}
 type pubWalk struct {
 	N   int `json:"n"`
 	Cfg struct {
 		Init []pubInit `json:"init"`
 	} `json:"cfg"`
-	Ops []pubOp `json:"ops"`
+	Ops []pubStep `json:"ops"`
 }
 type pubObs struct {
 	Model        string   `json:"model"`
@@ -151,6 +157,8 @@ type pubObs struct {
 	Aud          wAud     `json:"aud"`
 	Mask         string   `json:"mask"`
 	Rvid         int      `json:"rvid"`
+	Conc         bool     `json:"conc"`      // held at its clock read; pre = the publications when released, now = its instant
+	Overtaken    bool     `json:"overtaken"` // ... and they differ from what the call started from
 	Receipt      string   `json:"receipt"`
 	Reason       string   `json:"reason"`
 	Allow        bool     `json:"allow"`
@@ -201,8 +209,9 @@ func runPublication(raw json.RawMessage, out *hx.Out) {
 	}
 	srv := publicationpb.NewModelServer(m)
 	ctx := context.Background()
-	for i, op := range w.Ops {
-		o := pubObs{Model: "publication", Walk: w.N, Step: i + 1, Op: op.Op, ID: op.ID, Body: op.Body, MT: op.MT, Aud: op.Aud,
+	// prepare: advance the clock, read the state, resolve the version the request carries
+	prepare := func(step int, op pubOp) (pubObs, string) {
+		o := pubObs{Model: "publication", Walk: w.N, Step: step, Op: op.Op, ID: op.ID, Body: op.Body, MT: op.MT, Aud: op.Aud,
 			Mask: op.Mask, Receipt: op.Receipt, Reason: op.Reason, Allow: op.Allow, AllowMissing: op.AllowMissing,
 			Ret: optPubOf(nil), Err: "OK"}
 		o.Now = clk.advance(op.Dt)
@@ -218,6 +227,9 @@ func runPublication(raw json.RawMessage, out *hx.Out) {
 			version = "0123456789abcdef0123456789abcdef"
 		}
 		o.Rvid = lookupVid(version)
+		return o, version
+	}
+	exec := func(op pubOp, version string, o *pubObs) {
 		o.Panic = hx.Catch(func() {
 			var res *traits.Publication
 			var err error
@@ -252,7 +264,41 @@ func runPublication(raw json.RawMessage, out *hx.Out) {
 				o.Ret = optPubOf(res)
 			}
 		})
+	}
+	call := func(step int, op pubOp) pubObs {
+		o, version := prepare(step, op)
+		exec(op, version, &o)
+		o.Post = pubState(m)
+		return o
+	}
+	for i, st := range w.Ops {
+		if !st.Conc || st.A.Op == "Delete" { // (Delete reads the clock while it holds the collection's lock)
+			out.Write(call(i+1, st.A))
+			continue
+		}
+		o, version := prepare(i+1, st.A)
+		started := o.Pre
+		var inner []pubObs
+		at, ok := clk.during(func() { exec(st.A, version, &o) }, func(at int) {
+			inner = append(inner, call(i+1, st.B))
+			o.Pre = pubState(m)
+		})
+		if !ok {
+			continue // read the clock under a lock the other call needs: order unknown, step not judged
+		}
+		for _, l := range inner {
+			out.Write(l)
+		}
+		if at >= 0 {
+			o.Conc, o.Now = true, at
+			o.Overtaken = !reflect.DeepEqual(started, o.Pre)
+		} else {
+			o.Now = clk.current()
+		}
 		o.Post = pubState(m)
 		out.Write(o)
+		if at < 0 { // finished without reading the clock: the other call simply comes next
+			out.Write(call(i+1, st.B))
+		}
 	}
 }
